@@ -111,9 +111,13 @@ class Unit:
         b = self.banks.get(self.dtr1)
         if not self.write_enable or b is None:
             return None
-        idx = self.mem_writes
-        self.mem_writes += 1
-        f = self.answer_faults.get(idx)
+        # answer faults apply to WRITE MEMORY LOCATION (with reply) only: a
+        # NO-REPLY write has no answer that could be NO / wrong / garbled
+        f = None
+        if reply:
+            idx = self.mem_writes
+            self.mem_writes += 1
+            f = self.answer_faults.get(idx)
         if f == "no":
             # the unit refuses this write
             self._bump_dtr0()
